@@ -36,13 +36,7 @@ Theorem C02_content : forall c st b s fs,
   exists s', lookup b (tbl (fst (handle_all c st fs))) = Some s' /\
     rd s' = rd_pushes (rd s) (pushes b fs) /\ sclosed s' = sclosed s /\
     only b (gone (fst (handle_all c st fs))) = only b (gone st).
-Proof.
-  intros c st b s fs Hok Hd Hl Hna Hne.
-  destruct (handle_all_view c b fs st Hok Hna Hd) as (Hv & _).
-  destruct (vrun_content c b fs s (only b (gone st)) Hne) as (s1 & Hvr & Hrd & Hsc & _).
-  unfold view in Hv at 2. rewrite Hl, Hvr in Hv. unfold view in Hv. injection Hv as H1 H2.
-  exists s1. auto.
-Qed.
+Proof. exact content. Qed.
 Print Assumptions C02_content.
 
 (* PSH / FIN / SYNACK for an id that is not registered (never opened, not yet opened, already finished)
@@ -60,7 +54,7 @@ Theorem C02_stamp : forall sid d n st,
   Forall (fun f => fcmd f = Push /\ fsid f = sid /\ lenN (fdata f) <= max_payload) (data_frames sid d) /\
   (s_closed st = false -> next_id st < 4294967296 -> N.of_nat n <= 4294967296 ->
    NoDup (snd (open_many n st))).
-Proof. intros sid d n st. split; [apply data_frames_ok | apply open_ids_distinct]. Qed.
+Proof. exact stamp. Qed.
 Print Assumptions C02_stamp.
 
 (* a received FIN takes exactly the entry of its own id out of the tables *)
@@ -69,11 +63,7 @@ Theorem C02_fin_own_id_only : forall c st sid d,
   let st' := fst (handle c st (mk Fin sid d)) in
   lookup sid (tbl st') = None /\
   (forall b, b <> sid -> lookup b (tbl st') = lookup b (tbl st) /\ only b (gone st') = only b (gone st)).
-Proof.
-  intros c st sid d Hwf. cbv zeta.
-  destruct (fin_effect c st sid d Hwf) as (_ & H1 & H2 & _ & H4 & _).
-  split; [exact H1|]. intros b Hb. split; [apply H2 | apply H4]; exact Hb.
-Qed.
+Proof. exact fin_own_id_only. Qed.
 Print Assumptions C02_fin_own_id_only.
 
 (* non-vacuity: a server session with streams 1 and 2 open; an interleaving with data for both, a stale
